@@ -142,6 +142,10 @@ func labelsFromBytes(buf []byte) ([]string, error) {
 			off := int(buf[pos-1]&^0xc0)<<8 + int(buf[pos])
 			oldPos = pos + 1
 			pos = off
+		} else if length&0xc0 != 0 {
+			// RFC 1035 section 4.1.4: the 10 and 01 combinations are
+			// reserved; labels are at most 63 octets long.
+			return nil, errors.New("rfc1035label: reserved label type")
 		} else {
 			if pos+length > len(buf) {
 				return nil, ErrBufferTooShort
